@@ -1029,7 +1029,7 @@ func (r *Runner) builtin(ctx context.Context, pos syntax.Pos, name string, args 
 		stopCancel := r.cancelStdinReads(ctx)
 		scanner := bufio.NewScanner(r.stdin)
 		scanner.Split(mapfileSplit(delim[0], dropDelim))
-		for scanner.Scan() {
+		for scanner.Scan() && ctx.Err() == nil {
 			vr.List = append(vr.List, scanner.Text())
 		}
 		stopCancel()
@@ -1087,6 +1087,11 @@ func (r *Runner) readLine(ctx context.Context, raw bool) ([]byte, error) {
 
 	defer r.cancelStdinReads(ctx)()
 	for {
+		// A read deadline only ends reads which block;
+		// input which never runs dry, like /dev/zero, needs a check here.
+		if err := ctx.Err(); err != nil {
+			return line, err
+		}
 		var buf [1]byte
 		n, err := r.stdin.Read(buf[:])
 		if n > 0 {
